@@ -143,11 +143,35 @@ def tags_only():
   return fdl.Config(pool.fc, fdl.Config(pool.fc, p=pool.TagA.new(), q=pool.TagB.new()), q=1)
 
 
+def normalise_in_place(vocab=None, options=None, *rest, **kw):
+  """A configured callable that normalises the containers it receives in place."""
+  if isinstance(vocab, list):
+    vocab.sort()
+    vocab[:0] = ['<pad>']
+  if isinstance(options, dict):
+    options.setdefault('normalised', True)
+  for r in rest:
+    if isinstance(r, list):
+      r.append('seen')
+  for v in kw.values():
+    if isinstance(v, dict):
+      v.clear()
+  return ('normalised', tuple(vocab or ()), tuple(sorted(map(str, (options or {}).items()))))
+
+
+def callable_mutating_its_arguments():
+  shared = ['pear', 'apple', 'fig']
+  return fdl.Config(normalise_in_place, shared, {'lower': 1}, [], shared,
+                    deep={'d': 1}, sub=fdl.Partial(normalise_in_place, ['b', 'a'], {}),
+                    also=fdl.Config(normalise_in_place, shared, options={}))
+
+
 def get_factories():
   P = dict(pool.make_pool())
   P['long-values'] = long_config
   P['partial-tree-shared'] = partial_tree
   P['tags-without-values'] = tags_only
+  P['callable-mutating-its-arguments'] = callable_mutating_its_arguments
   return P
 
 
